@@ -4,6 +4,7 @@ import (
 	"fmt"
 	"go/types"
 	"math"
+	"os"
 	"reflect"
 	"strconv"
 	"strings"
@@ -207,7 +208,14 @@ func (m *machine) findIntrinsic(fn *ssa.Function) intrinsic {
 	case "os":
 		switch base {
 		case "Getenv":
-			return func(m *machine, c *frame, fn *ssa.Function, a []value) value { return "" }
+			return func(m *machine, c *frame, fn *ssa.Function, a []value) value {
+				// the environment is empty, except HOME (config.HomeDir): the
+				// real value, which the native replay sees as well
+				if k, ok := concStr(a[0]); ok && k == "HOME" {
+					return os.Getenv("HOME")
+				}
+				return ""
+			}
 		}
 	case "runtime":
 		switch base {
